@@ -2,6 +2,7 @@
 every input is compiled in several FRESH processes (so that the randomly seeded hash tables differ) and the verdict, the list
 of error codes and a hash of the complete diagnostics (variants, names, locations, in reported order) must be identical."""
 import glob
+import json
 import os
 import time
 from . import replayrun
@@ -12,6 +13,14 @@ EXTRA = [
     'const A: i32 = B + C;\nconst B: i32 = C + A;\nconst C: i32 = A + B;\n\nfn main()\n{\n}\n',
     'struct S\n{\n\tt: T,\n\tu: U,\n}\n\nstruct T\n{\n\ts: S,\n}\n\nstruct U\n{\n\ts: S,\n\tt: T,\n}\n\nfn main()\n{\n}\n',
     'fn f(a: i32, b: i32)\n{\n\ta = 1;\n\tb = 2;\n\tc = 3;\n\td = e;\n}\n\nfn f(x: i32)\n{\n}\n\nconst K: i32 = 1;\nconst K: i32 = 2;\n',
+]
+
+
+MULTI = [
+    '//// FILE: a.pn\npub const A: i32 = true;\n//// FILE: b.pn\npub const B: i32 = true;\n//// FILE: c.pn\npub const C: u8 = 300 + true;\n'
+    '//// FILE: main.pn\nimport "a.pn";\nimport "b.pn";\nimport "c.pn";\n\nfn main() -> i32\n{\n\treturn: A + B\n}\n',
+    '//// FILE: a.pn\npub fn fa() -> i32\n{\n\treturn: true\n}\n//// FILE: b.pn\npub struct S\n{\n\tx: Missing,\n}\n'
+    '//// FILE: main.pn\nimport "b.pn";\nimport "a.pn";\n\nfn main() -> i32\n{\n\tvar s: S = S { x: 1 };\n\treturn: fa() + undefined\n}\n',
 ]
 
 
@@ -49,6 +58,24 @@ def search(deadline, rng, n=40, runs=3):
             return (name, data, [r for _, r in seen])
         return None
 
+    def multi(src):
+        seen = set()
+        last = None
+        for _ in range(runs + 3):
+            r = replayrun.run('alphamulti', src.encode(), timeout=30)
+            if r.get('status') in ('timeout', 'build-failed', 'unknown'):
+                continue
+            seen.add((r.get('status'), json.dumps(r.get('result'), sort_keys=True)))
+            last = r
+        return (src, last, len(seen)) if len(seen) > 1 else None
+
+    for src in MULTI:
+        hit = multi(src)
+        if hit:
+            return {'mode': 'alphamulti', 'input_utf8_lossy': hit[0], 'input_hex': hit[0].encode().hex(), 'observed': {'distinct_outcomes': hit[2], 'one_of_them': hit[1]},
+                    'expected': 'a program of several modules compiled %d times in fresh processes: identical error codes and diagnostics (same order) per module' % (runs + 3),
+                    'expect_deterministic': runs + 3,
+                    'how': 'replay_runner alphamulti <file>, several fresh processes; d<i> is a hash of the complete diagnostics of module i in the order reported'}
     with cf.ThreadPoolExecutor(8) as ex:
         for hit in ex.map(one, inputs(rng, n)):
             if hit:
@@ -60,10 +87,10 @@ def search(deadline, rng, n=40, runs=3):
     return None
 
 
-def replay_differs(w, runs=4):
+def replay_differs(w, runs=6):
     data = bytes.fromhex(w['input_hex'])
     keys = set()
     for _ in range(runs):
-        r = replayrun.run('alpha', data, timeout=30)
+        r = replayrun.run(w.get('mode', 'alpha'), data, timeout=30)
         keys.add((r.get('status'), str(r.get('result'))))
     return len(keys) > 1
